@@ -15,6 +15,7 @@ import (
 	"os"
 	"path/filepath"
 	"regexp"
+	"sort"
 	"strings"
 	"time"
 
@@ -293,6 +294,12 @@ func runReqCase(out *hx.Out, c reqCase) {
 				r2.Header = r.Header
 				r = r2
 			}
+		} else if c.spec.Body {
+			// signed (if at all) over an empty payload / the declared hash; the body says otherwise
+			r2 := httptest.NewRequest(r.Method, r.RequestURI, strings.NewReader("payload that was not hashed"))
+			r2.Host = r.Host
+			r2.Header = r.Header
+			r = r2
 		}
 		return r
 	}
@@ -352,9 +359,18 @@ func runReqCase(out *hx.Out, c reqCase) {
 		ops = append(ops, op)
 	}
 	fwrite := false
+	freadSet := map[string]bool{}
 	for _, op := range ops {
 		fwrite = fwrite || isWrite(op)
+		if b, ok := readBucket(op); ok {
+			freadSet[b] = true
+		}
 	}
+	var fread []string
+	for b := range freadSet {
+		fread = append(fread, hx.Str(b))
+	}
+	sort.Strings(fread)
 	st, code := respClass(rec)
 	eff := effectiveForm(c.form, r0.Header.Get("Content-Type"))
 	envTerm := fmt.Sprintf("{| e_upload_exists := %s; e_form := %s; e_client_idhdr := %s |}",
@@ -368,8 +384,8 @@ func runReqCase(out *hx.Out, c reqCase) {
 	}
 	claim := fmt.Sprintf("{| cl_ak := %s; cl_secret := %s; cl_damage := %s |}", hx.Str(c.auth.AK), hx.Str(c.auth.Secret),
 		coqDamage(c.auth.Damage))
-	term := fmt.Sprintf("ReqCase {| c_ids := %s; c_req := %s; c_claim := %s; c_env := %s; i_type := %s; i_direct := %s; i_route := %s; i_resp := %s; i_filer := %s; i_fwrite := %s; i_idhdr := %s; i_route_actions := %s |}",
-		hx.List(ids), reqTerm, claim, envTerm, ty, hx.List(direct), route, hx.Pair(hx.N(uint64(st)), hx.Str(code)), hx.Bool(len(ops) > 0), hx.Bool(fwrite),
+	term := fmt.Sprintf("ReqCase {| c_ids := %s; c_req := %s; c_claim := %s; c_env := %s; i_type := %s; i_direct := %s; i_route := %s; i_resp := %s; i_filer := %s; i_fwrite := %s; i_fread := %s; i_idhdr := %s; i_route_actions := %s |}",
+		hx.List(ids), reqTerm, claim, envTerm, ty, hx.List(direct), route, hx.Pair(hx.N(uint64(st)), hx.Str(code)), hx.Bool(len(ops) > 0), hx.Bool(fwrite), hx.List(fread),
 		hx.Pair(hx.Str(idh), hx.Bool(admh)), routeActions)
 
 	var idn []string
@@ -378,7 +394,7 @@ func runReqCase(out *hx.Out, c reqCase) {
 	}
 	canon := strings.Join([]string{c.spec.Method, c.spec.path(), encodeQuery(c.spec.Query, c.spec.EqForm), c.spec.Sha256, c.spec.CType, c.spec.CopySrc,
 		c.auth.Mech, c.auth.AK, c.auth.Secret, c.auth.Damage, strings.Join(idn, ";"),
-		fmt.Sprint(c.form.Kind, c.form.V2, c.form.AK, c.form.Secret, c.form.Damage), c.spec.SpoofId, fmt.Sprint(c.spec.SpoofAdmin)}, "|")
+		fmt.Sprint(c.form.Kind, c.form.V2, c.form.AK, c.form.Secret, c.form.Damage), c.spec.SpoofId, fmt.Sprint(c.spec.SpoofAdmin, c.spec.Body, c.auth.Tamper)}, "|")
 	out.Add(term, canon, anyRun || len(ops) > 0, c.kind)
 	out.Count("authtype:"+ty, 1)
 	out.Count("mech:"+c.auth.Mech+"/"+c.auth.Damage, 1)
@@ -389,11 +405,30 @@ func runReqCase(out *hx.Out, c reqCase) {
 	if fwrite {
 		out.Count("filer-upload-reached", 1)
 	}
+	if len(fread) > 0 {
+		out.Count("filer-object-read", 1)
+		if c.spec.CopySrc != "" && len(c.ids) > 0 {
+			out.Count("copy-source-read:"+strings.Join(fread, ","), 1)
+		}
+	}
 	if eff.Kind != 0 {
 		out.Count(fmt.Sprintf("form:kind=%d v2=%v %s", eff.Kind, eff.V2, eff.Damage), 1)
 	}
 	if c.spec.SpoofId != "" || c.spec.SpoofAdmin {
 		out.Count("client-sent-identity-headers", 1)
+	}
+	if c.spec.Body && c.form.Kind == 0 && !(c.spec.Sha256 == streamingSH && c.spec.Method == "PUT") {
+		out.Count("body-not-matching-declared-sha256", 1)
+	}
+	seenKey := map[string]bool{}
+	for _, kv := range c.spec.Query {
+		if seenKey[kv[0]] {
+			out.Count("duplicated-query-key:"+kv[0], 1)
+		}
+		seenKey[kv[0]] = true
+	}
+	if c.auth.Damage == "expired" && (c.auth.Mech == "v4h" || c.auth.Mech == "v2h") {
+		out.Count(fmt.Sprintf("header-date-skew:%s", map[int]string{0: "-48h", 1: "+48h"}[c.auth.Tamper]), 1)
 	}
 	if route == "None" {
 		out.Count("route:none", 1)
@@ -452,14 +487,20 @@ func pickIds(r *hx.Rng, must *ident) []ident {
 	return ids
 }
 
-func mutate(r *hx.Rng, s reqSpec) reqSpec {
+// styles whose signature (if any) is V4 or absent: duplicated query keys are well defined there
+// (V4 canonical query = url.Values.Encode: keys sorted, values of one key in request order)
+var dupOK = map[string]bool{"none": true, "v4h": true, "v4hsdk": true, "v4p": true, "v4psdk": true,
+	"streaming-unsigned": true, "form-unsigned": true, "otherauthz": true}
+
+func mutate(r *hx.Rng, s reqSpec, allowDup bool) reqSpec {
 	switch r.Intn(10) {
 	case 9:
-		// another value for an existing multipart parameter (boundary of globalMaxPartID; unknown upload)
+		// another value for an existing multipart parameter (both boundaries of the part number range
+		// 1..globalMaxPartID = 1..10000; unknown upload)
 		for k, kv := range s.Query {
 			if kv[0] == "partNumber" {
 				s.Query = append([][2]string{}, s.Query...)
-				s.Query[k][1] = r.PickStr([]string{"100000", "100001", "007", "99999999"})
+				s.Query[k][1] = r.PickStr([]string{"10000", "10001", "0", "007", "99999999"})
 				break
 			}
 			if kv[0] == "uploadId" {
@@ -486,13 +527,18 @@ func mutate(r *hx.Rng, s reqSpec) reqSpec {
 			{"partNumber", ""}, {"tagging", ""}, {"list-type", "2"}, {"list-type", "1"}, {"delete", ""}, {"acl", ""}, {"prefix", "p"}}
 		e := extra[r.Intn(len(extra))]
 		for _, kv := range s.Query {
-			if kv[0] == e[0] {
-				return s // no duplicated keys: V2 canonicalisation of duplicates is not specified
+			if kv[0] == e[0] && !allowDup {
+				return s // no duplicated keys with V2 signatures: V2 canonicalisation of duplicates is not specified
 			}
 		}
-		s.Query = append(append([][2]string{}, s.Query...), e)
+		if allowDup && r.Chance(1, 2) {
+			// in FRONT of the existing elements: mux and url.Values.Get look at the first occurrence
+			s.Query = append([][2]string{e}, s.Query...)
+		} else {
+			s.Query = append(append([][2]string{}, s.Query...), e)
+		}
 	case 4:
-		s.CopySrc = r.PickStr([]string{"", "b2/src", "b2%2Fsrc", "nosrc", "/"})
+		s.CopySrc = r.PickStr([]string{"", "b2/src", "b2%2Fsrc", "nosrc", "/", "/b1/src", "b1/o", "/b1/o", "c3/d/src", "b2%2fsrc", "%2Fb1%2Fsrc", "b2/src?x=%zz", "/b2", "b1/d/o"})
 	case 5:
 		s.CType = r.PickStr([]string{"", "multipart/form-data", "multipart/form-dat", "application/xml", "x-multipart/form-data; boundary=q", "Multipart/Form-Data"})
 	case 6:
@@ -509,7 +555,8 @@ func mutate(r *hx.Rng, s reqSpec) reqSpec {
 
 func genReqCase(r *hx.Rng, i int) reqCase {
 	t := templates[i%len(templates)]
-	style := styles[(i/len(templates))%len(styles)]
+	// drawn per case: a shard holds 150 cases, so an index-derived style ((i/23) mod 17) never got past the 7th style
+	style := styles[r.Intn(len(styles))]
 	s := t.spec
 	if t.name != "ListBuckets" {
 		s.Bucket = r.PickStr(buckets)
@@ -517,8 +564,26 @@ func genReqCase(r *hx.Rng, i int) reqCase {
 	if s.Object != "" && r.Chance(1, 4) {
 		s.Object = r.PickStr([]string{"o", "d/o", "k.txt"})
 	}
+	if s.CopySrc != "" && r.Chance(1, 2) {
+		// the source in another / the same bucket, escaped, with a leading slash, the destination itself
+		s.CopySrc = r.PickStr([]string{"b1/src", "/b1/src", "b2%2Fsrc", "c3/d/src", "%2Fc3%2Fsrc", "b1/o", "/" + s.Bucket + "/" + s.Object, s.Bucket + "/src", "b2/src?x=%zz", "/b2"})
+	}
 	for r.Chance(1, 3) {
-		s = mutate(r, s)
+		s = mutate(r, s, dupOK[style])
+	}
+	// a query key written twice with different values (the router and the handlers look at the first one)
+	if dupOK[style] && len(s.Query) > 0 && r.Chance(1, 6) {
+		kv := s.Query[r.Intn(len(s.Query))]
+		other := [2]string{kv[0], r.PickStr([]string{"", "x", "2", "u1", "u2", "7", "10001"})}
+		if r.Chance(1, 2) {
+			s.Query = append([][2]string{other}, s.Query...)
+		} else {
+			s.Query = append(append([][2]string{}, s.Query...), other)
+		}
+	}
+	// a body that does not match the signed x-amz-content-sha256 (header signatures sign the header, nobody hashes the body)
+	if (s.Method == "PUT" || s.Method == "POST") && r.Chance(1, 5) {
+		s.Body = true
 	}
 	s.EqForm = r.Chance(1, 2)
 	if s.Bucket == "" { // the path is "/": there is no object
@@ -708,7 +773,7 @@ func genPolCase(r *hx.Rng) ([]stmt, []string) {
 
 func main() {
 	out := hx.Flags("C26", 600)
-	out.Rule = "request cases: route template (case index mod 23: every route of registerRouter + ListBuckets) x auth style ((index/23) mod 17: none, valid V4 header (own signer / aws-sdk signer), valid V4 presigned (own / aws-sdk), valid V2 header, V2 presigned, wrong secret, unknown key, tampered signature or signed header, expired presign, malformed credential, streaming sha256 header unsigned/signed, multipart-form content type unsigned/signed, JWT/Basic/empty Authorization) x random identity configuration (1-4 of 12 identities incl. Admin, Read, Write:b1, List, Tagging, none, prefix wildcards, optional anonymous identity with 5 action sets, duplicated access keys, no identities) x bucket in {b1,b2,c3}, with random mutations of method/object/query/headers (1/3, repeated); every 7th case is an IAM policy document (0-3 statements, Allow/Deny/other effects, 12 action strings, 15 resource strings incl. malformed ARNs) put on a user with random prior actions; POSTs that look like browser uploads carry a multipart form (no file / policy signed V2 or V4 by a configured or unknown key, wrong secret, tampered signature or policy, expired policy, malformed credential); streaming styles sign a real V4 seed (x-amz-content-sha256 signed); 1/6 of the requests carry client-sent s3-identity-id / s3-is-admin headers; multipart parameters are mutated (unknown upload, part number around globalMaxPartID); the filer stand-in holds upload u1 and records lookups and uploads separately; the first cases are the fixed witnesses of findings 0, 1, 2 and fixed valid streaming-seed / POST-policy uploads; non-trivial = a handler ran or the filer stand-in saw an operation (request cases), a grant exists (policy cases); distinct = canonical request+identities / document text"
+	out.Rule = "request cases: route template (case index mod 23: every route of registerRouter + ListBuckets) x auth style (drawn uniformly per case among 17: none, valid V4 header (own signer / aws-sdk signer), valid V4 presigned (own / aws-sdk), valid V2 header, V2 presigned, wrong secret, unknown key, tampered signature or signed header, expired presign, malformed credential, streaming sha256 header unsigned/signed, multipart-form content type unsigned/signed, JWT/Basic/empty Authorization) x random identity configuration (1-4 of 12 identities incl. Admin, Read, Write:b1, List, Tagging, none, prefix wildcards, optional anonymous identity with 5 action sets, duplicated access keys, no identities) x bucket in {b1,b2,c3}, with random mutations of method/object/query/headers (1/3, repeated); every 7th case is an IAM policy document (0-3 statements, Allow/Deny/other effects, 12 action strings, 15 resource strings incl. malformed ARNs) put on a user with random prior actions; POSTs that look like browser uploads carry a multipart form (no file / policy signed V2 or V4 by a configured or unknown key, wrong secret, tampered signature or policy, expired policy, malformed credential); streaming styles sign a real V4 seed (x-amz-content-sha256 signed); 1/6 of the requests carry client-sent s3-identity-id / s3-is-admin headers; query keys are duplicated with another value before or after the original (styles without a V2 signature); 1/5 of PUT/POST carry a body the declared x-amz-content-sha256 does not describe; header signatures with a date 48h in the past or in the future; multipart parameters are mutated (unknown upload, part number at both ends of 1..globalMaxPartID = 1..10000: 10000, 10001, 0, 007, 99999999); the filer stand-in holds upload u1 and records lookups and uploads separately; the filer stand-in also holds an object named src in every bucket and records from which buckets it was asked to GET an object (copy sources: 14 X-Amz-Copy-Source values incl. escaped, leading slash, same bucket, same object, not unescapable); the first cases are the fixed witnesses of findings 0, 1, 2, 3, fixed valid streaming-seed / POST-policy uploads, a fully authorised copy and part uploads with part numbers 0, 10000, 10001; non-trivial = a handler ran or the filer stand-in saw an operation (request cases), a grant exists (policy cases); distinct = canonical request+identities / document text"
 	flag.Set("logtostderr", "false") // glog: to files under TMPDIR, not the terminal
 	flag.Set("alsologtostderr", "false")
 	stub = newFilerStub()
@@ -718,6 +783,7 @@ func main() {
 	admin := pool[0]
 	reader := pool[1]
 	writer1 := pool[2]
+	rw := pool[8]
 	// fixed witnesses of finding 0 (independent of the seed)
 	fixed := []reqCase{
 		{ids: []ident{admin}, spec: reqSpec{Method: "PUT", Bucket: "b1", Sha256: streamingSH}, auth: authSpec{Mech: "none", Damage: "intact"}, kind: "witness:streaming-putbucket"},
@@ -738,6 +804,15 @@ func main() {
 		{ids: []ident{reader, writer1}, spec: reqSpec{Method: "PUT", Bucket: "b2", Object: "o", Sha256: streamingSH}, auth: authSpec{Mech: "v4h", AK: writer1.AK, Secret: writer1.SK, Damage: "intact"}, kind: "fixed:streaming-seed-wrong-bucket"},
 		{ids: []ident{reader, writer1}, spec: reqSpec{Method: "POST", Bucket: "b1", CType: formCType}, auth: authSpec{Mech: "none", Damage: "intact"},
 			form: formSpec{Kind: 2, AK: writer1.AK, Secret: writer1.SK, Damage: "intact"}, kind: "fixed:postpolicy-writer"},
+		// finding 3: writer1 (Write:b1, nothing on b2) copies b2/src into b1, as an object and as a part
+		{ids: []ident{admin, writer1}, spec: reqSpec{Method: "PUT", Bucket: "b1", Object: "o", CopySrc: "b2/src"}, auth: authSpec{Mech: "v4h", AK: writer1.AK, Secret: writer1.SK, Damage: "intact"}, kind: "witness:copy-reads-unreadable-source"},
+		{ids: []ident{admin, writer1}, spec: reqSpec{Method: "PUT", Bucket: "b1", Object: "o", Query: q("partNumber", "1", "uploadId", "u1"), CopySrc: "b2%2Fsrc"}, auth: authSpec{Mech: "v4h", AK: writer1.AK, Secret: writer1.SK, Damage: "intact"}, kind: "witness:copy-part-reads-unreadable-source"},
+		// the same copy by an identity that may Read and Write everywhere (must be verdict 0)
+		{ids: []ident{rw, writer1}, spec: reqSpec{Method: "PUT", Bucket: "b1", Object: "o", CopySrc: "b2/src"}, auth: authSpec{Mech: "v2h", AK: rw.AK, Secret: rw.SK, Damage: "intact"}, kind: "fixed:copy-reader-writer"},
+		// the former witness of C28 finding 5 and the two ends of the part number range (must be verdict 0)
+		{ids: []ident{reader, writer1}, spec: reqSpec{Method: "PUT", Bucket: "b1", Object: "o", Query: q("partNumber", "0", "uploadId", "u1")}, auth: authSpec{Mech: "v4h", AK: writer1.AK, Secret: writer1.SK, Damage: "intact"}, kind: "fixed:part-number-0"},
+		{ids: []ident{reader, writer1}, spec: reqSpec{Method: "PUT", Bucket: "b1", Object: "o", Query: q("partNumber", "10000", "uploadId", "u1")}, auth: authSpec{Mech: "v4h", AK: writer1.AK, Secret: writer1.SK, Damage: "intact"}, kind: "fixed:part-number-10000"},
+		{ids: []ident{reader, writer1}, spec: reqSpec{Method: "PUT", Bucket: "b1", Object: "o", Query: q("partNumber", "10001", "uploadId", "u1"), Sha256: streamingSH}, auth: authSpec{Mech: "v4h", AK: writer1.AK, Secret: writer1.SK, Damage: "intact"}, kind: "fixed:part-number-10001-streaming"},
 	}
 	for i := 0; i < out.N; i++ {
 		r := root.Fork()
